@@ -25,7 +25,7 @@ def coq_of(s):
     if k == "var":
         return f'(Var "{s[1]}")'
     if k == "cx":
-        return f"(Cx {s[1]})"
+        return f'(Node "sload" [Lit {s[1]}])'
     if k == "un":
         return f"(Un U_{s[1]} {coq_of(s[2])})"
     if k == "bin":
@@ -33,7 +33,7 @@ def coq_of(s):
     if k == "seq":
         return f"(Seq1 {coq_of(s[1])})"
     if k == "if":
-        return f"(If3 {coq_of(s[1])} {coq_of(s[2])} {coq_of(s[3])})"
+        return f'(Node "if" [{coq_of(s[1])}; {coq_of(s[2])}; {coq_of(s[3])}])'
     raise ValueError(s)
 
 
@@ -64,7 +64,7 @@ def show_shape(s):
     if k == "var":
         return s[1]
     if k == "cx":
-        return "c" + hx(s[1])
+        return "(sload " + hx(s[1]) + ")"
     if k == "un":
         return f"({s[1]} {show_shape(s[2])})"
     if k == "bin":
@@ -83,10 +83,8 @@ def show_ir(x):
         if isinstance(x.value, int):
             assert not x.args
             return hx(x.value)
-        if x.value == "sload" and len(x.args) == 1 and isinstance(x.args[0].value, int):
-            return "c" + hx(x.args[0].value)
         if not x.args:
-            return str(x.value)
+            return f"({x.value})" if x.is_complex_ir else str(x.value)
         return "(" + " ".join([str(x.value)] + [show_ir(a) for a in x.args]) + ")"
     if isinstance(x, bool):
         raise ValueError("bool in IR")
@@ -95,8 +93,6 @@ def show_ir(x):
     if isinstance(x, str):
         return x
     if isinstance(x, (list, tuple)):
-        if len(x) == 2 and x[0] == "sload" and isinstance(x[1], int):
-            return "c" + hx(x[1])
         return "(" + " ".join(show_ir(a) for a in x) + ")"
     raise ValueError(repr(x))
 
